@@ -1042,18 +1042,31 @@ func ExpressionVerbatim(p *load.Prog, r *oblig.Report, rule string) {
 		r.Unknown(rule, c2, "-", "parseCondition not found")
 		return
 	}
-	ok := false
+	// every text parseCondition can return (one template per way through it and through the helpers that build parts
+	// of it) carries the expression itself
+	ok, n := true, 0
 	for _, t := range ReturnTemplates(pc) {
+		if len(t) == 0 || (len(t) == 1 && t[0].Val == nil && t[0].Lit == "") {
+			continue // the "" of an error return
+		}
+		n++
+		has := false
 		for _, piece := range t {
 			if piece.Val != nil && isStringType(piece.Val.Type()) && strings.HasSuffix(AccessPath(piece.Val), ".Expression") {
-				ok = true
+				has = true
 			}
 		}
+		if !has {
+			ok = false
+		}
+	}
+	if n == 0 {
+		ok = false
 	}
 	if ok {
 		r.OK(rule, c2, p.Pos(pc.Pos()), "format-shape", "GetExpression() through a plain verb")
 	} else {
-		r.Bad(rule, c2, p.Pos(pc.Pos()), "no string returned by parseCondition contains GetExpression() itself (as a plain string operand of a Sprintf or concatenation)")
+		r.Bad(rule, c2, p.Pos(pc.Pos()), "some string returned by parseCondition does not contain GetExpression() itself (as a plain string operand of a Sprintf or concatenation): the expression is rewritten on the way out")
 	}
 }
 
